@@ -183,27 +183,34 @@ pub fn cap_range(cfg: &Cfg, cap0: u64, f: u64, s: u64) -> (u64, u64) {
 }
 
 /// Wing–Gong style search: is there a sequential order, consistent with real-time order, that
-/// explains every result and the final balance? For the AIMD budget the cap applied by a
-/// deposit may be any value the controller can hold in [min, max].
-pub fn linearizable(cfg: &Cfg, h: &History, node_cap: u64) -> Option<bool> {
+/// explains every result and the final balance (and, where it was read, the final cap)?
+/// For the AIMD budget the sequential machine is (balance, cap): a refused withdrawal multiplies
+/// the cap by the decrease factor (floor `min`), a deposit credits up to the cap and then raises the
+/// cap by one (ceiling `max`). With `strict == false` the cap applied by a deposit may instead be
+/// any value in [min, max] (the model used before the budget's operations were made atomic as a
+/// whole; kept to tell "the compound operation is not atomic" from "the balance itself is wrong").
+pub fn linearizable(cfg: &Cfg, h: &History, node_cap: u64, strict: bool) -> Option<bool> {
     let n = h.ops.len();
     if n > 20 {
         return None;
     }
-    let mut seen: HashSet<(u32, u64)> = HashSet::new();
+    let mut seen: HashSet<(u32, u64, u64)> = HashSet::new();
     let mut nodes = 0u64;
-    fn go(cfg: &Cfg, h: &History, done: u32, bal: u64, seen: &mut HashSet<(u32, u64)>, nodes: &mut u64, cap: u64) -> Option<bool> {
+    #[allow(clippy::too_many_arguments)]
+    fn go(cfg: &Cfg, h: &History, done: u32, bal: u64, cap_now: u64, strict: bool, seen: &mut HashSet<(u32, u64, u64)>, nodes: &mut u64, cap: u64) -> Option<bool> {
         let n = h.ops.len();
         if done == (1u32 << n) - 1 {
-            return Some(bal == h.final_balance);
+            return Some(bal == h.final_balance && (!strict || !cfg.aimd || h.cap_after.map_or(true, |c| c == cap_now)));
         }
-        if !seen.insert((done, bal)) {
+        if !seen.insert((done, bal, cap_now)) {
             return Some(false);
         }
         *nodes += 1;
         if *nodes > cap {
             return None;
         }
+        let dec = |x: u64| (((x as f64) * cfg.factor) as u64).min(x).max(cfg.min);
+        let inc = |x: u64| (x + 1).min(cfg.max);
         // an op may go next iff no other pending op returned before it was called
         let min_ret = (0..n).filter(|i| done & (1 << i) == 0).map(|i| h.ops[i].ret).min().unwrap();
         for i in 0..n {
@@ -211,27 +218,29 @@ pub fn linearizable(cfg: &Cfg, h: &History, node_cap: u64) -> Option<bool> {
                 continue;
             }
             let o = &h.ops[i];
-            let nexts: Vec<u64> = match o.kind {
+            let nexts: Vec<(u64, u64)> = match o.kind {
                 Kind::Withdraw => {
                     let ok = bal >= cfg.wd;
                     if ok != o.granted {
                         continue;
                     }
-                    vec![if ok { bal - cfg.wd } else { bal }]
+                    vec![if ok { (bal - cfg.wd, cap_now) } else { (bal, if cfg.aimd && strict { dec(cap_now) } else { cap_now }) }]
                 }
                 Kind::Deposit => {
-                    if cfg.aimd {
-                        let mut v: Vec<u64> = (cfg.min..=cfg.max).map(|c| (bal + cfg.dep).min(c)).collect();
+                    if cfg.aimd && strict {
+                        vec![((bal + cfg.dep).min(cap_now), inc(cap_now))]
+                    } else if cfg.aimd {
+                        let mut v: Vec<(u64, u64)> = (cfg.min..=cfg.max).map(|c| ((bal + cfg.dep).min(c), cap_now)).collect();
                         v.sort();
                         v.dedup();
                         v
                     } else {
-                        vec![(bal + cfg.dep).min(cfg.max)]
+                        vec![((bal + cfg.dep).min(cfg.max), cap_now)]
                     }
                 }
             };
-            for nb in nexts {
-                match go(cfg, h, done | (1 << i), nb, seen, nodes, cap) {
+            for (nb, nc) in nexts {
+                match go(cfg, h, done | (1 << i), nb, nc, strict, seen, nodes, cap) {
                     Some(true) => return Some(true),
                     None => return None,
                     _ => {}
@@ -241,7 +250,7 @@ pub fn linearizable(cfg: &Cfg, h: &History, node_cap: u64) -> Option<bool> {
         Some(false)
     }
     // an initial balance above the maximum is capped: the balance never exceeds the maximum
-    go(cfg, h, 0, cfg.initial.min(cfg.max), &mut seen, &mut nodes, node_cap)
+    go(cfg, h, 0, cfg.initial.min(cfg.max), cfg.max.max(cfg.min), strict, &mut seen, &mut nodes, node_cap)
 }
 
 pub fn render(h: &History) -> Vec<String> {
@@ -281,12 +290,25 @@ pub fn judge(cfg: &Cfg, h: &History, rep: &mut Report) -> bool {
     // overlap: some deposit overlaps another operation in real time
     let overlapping = h.ops.iter().any(|d| d.kind == Kind::Deposit && h.ops.iter().any(|o| o.thread != d.thread && o.call < d.ret && d.call < o.ret));
     if h.ops.len() <= 14 {
-        match linearizable(cfg, h, 2_000_000) {
+        match linearizable(cfg, h, 2_000_000, true) {
             Some(true) => rep.count("histories_linearizable", 1),
-            Some(false) => rep.violate(
-                format!("C08:{kind}:not-linearizable"),
-                format!("no sequential order of these operations explains their results and the final balance {} (initial {}); cfg {:?}; history {:?}", h.final_balance, cfg.initial, cfg, render(h)),
-            ),
+            Some(false) => {
+                // which part fails: the balance alone (any cap allowed), or only the compound (balance, cap) machine
+                let relaxed = if cfg.aimd { linearizable(cfg, h, 2_000_000, false) } else { Some(false) };
+                let sig = if relaxed == Some(true) { format!("C08:{kind}:compound-operation-not-atomic") } else { format!("C08:{kind}:not-linearizable") };
+                rep.violate(
+                    sig,
+                    format!(
+                        "no sequential order of these operations explains their results, the final balance {}{} (initial {}){}; cfg {:?}; history {:?}",
+                        h.final_balance,
+                        h.cap_after.map(|c| format!(" and the final cap {c}")).unwrap_or_default(),
+                        cfg.initial,
+                        if relaxed == Some(true) { " — the balance alone would be explained if a deposit could be capped at a maximum that was no longer current" } else { "" },
+                        cfg,
+                        render(h)
+                    ),
+                )
+            }
             None => rep.count("linearizability_checks_timed_out", 1),
         }
     }
